@@ -3,6 +3,8 @@
 
 mod c01;
 mod c02;
+mod c03;
+mod c03_adaptive;
 mod c04;
 mod c06;
 mod coin;
@@ -26,6 +28,7 @@ fn main() {
     let spec = match id.as_str() {
         "C01" => c01::spec(),
         "C02" => c02::spec(),
+        "C03" => c03::spec(),
         "C04" => c04::spec(),
         "C06" => c06::spec(),
         "C13" => c13::spec(),
